@@ -99,7 +99,8 @@ func (d *dumper) vars(vs *ast.Vars) [][2]string {
 		return out
 	}
 	for k, v := range vs.All() {
-		out = append(out, [2]string{k, d.path(d.varStr(v))})
+		// "<Dir>|<value>": the model carries ast.Var.Dir in front of the value (Model.v: stamp_dir)
+		out = append(out, [2]string{k, d.path(v.Dir) + "|" + d.path(d.varStr(v))})
 	}
 	return out
 }
@@ -341,7 +342,7 @@ func (d *dumper) envFileCoq(names map[string]bool) string {
 	sort.Strings(ns)
 	for _, n := range ns {
 		if v, ok := os.LookupEnv(n); ok {
-			kvs = append(kvs, [2]string{n, "v=" + v})
+			kvs = append(kvs, [2]string{n, "|v=" + v})
 		}
 	}
 	return fmt.Sprintf("(Build_file %s false %s %s [] [] [] None)", cg.Str(""), cg.Str(""), d.kvList(kvs))
